@@ -193,6 +193,18 @@ package logqlmetric
 //@   loop 0 invariant has(r, anyKey) ==> exists(0, rangeindex+1, func(j int) bool { return grouper(samples[j].Set, groupLabels...).Key() == anyKey })
 
 // and: left samples whose key is on the right
+// Which closure an operator gets is decided on the empty operand, where the three differ:
+// x and {} = {} and x = {};  x or {} = {} or x = x;  x unless {} = x, {} unless x = {}.
+// (What each closure does on two non-empty operands is in the contracts of $1..$3 below.)
+//@ func buildMergeSamplesOp
+//@   logical a []Sample
+//@   logical e []Sample
+//@   modifies nothing
+//@   ensures[and-with-an-empty-side-is-empty] op == logql.OpAnd ==> ret1 == nil && (len(a) > 0 && len(e) == 0 ==> len(ret0(a, e)) == 0 && len(ret0(e, a)) == 0)
+//@   ensures[or-with-an-empty-side-is-the-other-side] op == logql.OpOr ==> ret1 == nil && (len(a) > 0 && len(e) == 0 ==> same(ret0(a, e), a) && same(ret0(e, a), a))
+//@   ensures[unless-with-an-empty-side-is-the-left-side] op == logql.OpUnless ==> ret1 == nil && (len(a) > 0 && len(e) == 0 ==> same(ret0(a, e), a) && len(ret0(e, a)) == 0)
+//@   ensures[other-operators-rejected] !(op == logql.OpAnd || op == logql.OpOr || op == logql.OpUnless) ==> ret1 != nil
+
 //@ func buildMergeSamplesOp$1
 //@   assume_pure grouper
 //@   capture ss = call(samplesSet, 0)
@@ -258,6 +270,8 @@ package logqlmetric
 //@ func BinOp
 //@   ensures[modifiers-unsupported] (old(expr.Modifier.Op) != "" || old(len(expr.Modifier.OpLabels)) > 0 || old(expr.Modifier.Group) != "" || old(len(expr.Modifier.Include)) > 0) ==> ret1 != nil
 //@   ensures[set-operators] ret1 == nil && (old(expr.Op) == logql.OpAnd || old(expr.Op) == logql.OpOr || old(expr.Op) == logql.OpUnless) ==> typeis[*mergeBinOpIterator](ret0) && as[*mergeBinOpIterator](ret0).left == left && as[*mergeBinOpIterator](ret0).right == right
+//@   capture bm = call(buildMergeSamplesOp, 0)
+//@   ensures[set-operation-of-this-expression] ret1 == nil && typeis[*mergeBinOpIterator](ret0) ==> bm_called && bm_a0 == old(expr.Op)
 //@   ensures[sample-operators] ret1 == nil && !(old(expr.Op) == logql.OpAnd || old(expr.Op) == logql.OpOr || old(expr.Op) == logql.OpUnless) ==> typeis[*binOpIterator](ret0) && as[*binOpIterator](ret0).left == left && as[*binOpIterator](ret0).right == right
 
 // ---- C11: vector aggregations
@@ -408,6 +422,17 @@ package logqlmetric
 //@   capture r = call(i.right.Err, 0)
 //@   modifies nothing
 //@   ensures[either-side-error-surfaces] l_called && r_called && ((l_r0 != nil || r_r0 != nil) == (ret0 != nil))
+
+// A step of a set operation needs a step of both sides; its samples are what the operation makes
+// of the left step's samples and the right step's samples, in that order, at the left timestamp.
+//@ func (*mergeBinOpIterator).Next
+//@   assume_pure i.merge
+//@   capture ln = call(i.left.Next, 0)
+//@   capture rn = call(i.right.Next, 0)
+//@   capture mg = call(i.merge, 0)
+//@   modifies *
+//@   ensures[a-step-needs-both-sides] ret0 == (ln_called && ln_r0 && rn_called && rn_r0)
+//@   ensures[operands-left-then-right] ret0 ==> mg_called && same(mg_a0, left.Samples) && same(mg_a1, right.Samples) && same(r.Samples, mg_r0) && r.Timestamp == left.Timestamp
 
 //@ func (*mergeBinOpIterator).Close
 //@   capture l = call(i.left.Close, 0)
